@@ -147,6 +147,21 @@ Theorem quadratic_value_is_border_peak_or_vertex :
 Proof. exact quadratic_value_cases. Qed.
 Print Assumptions quadratic_value_is_border_peak_or_vertex.
 
+(* what is fitted: the rows handed to lstsq are exactly the unmasked finite pixels of the
+   fit box [x0, x1) x [y0, y1), and there are at least six *)
+Theorem quadratic_fits_unmasked_finite_box_pixels :
+  forall data mask NY NX xpeak ypeak fitbox search x0 x1 y0 y1 pts,
+  rect NY NX data -> mask_rect NY NX mask ->
+  quad_pre data mask xpeak ypeak fitbox search = QFit x0 x1 y0 y1 pts ->
+  (6 <= length pts)%nat /\
+  forall x y v,
+    In (x, y, v) pts <->
+    exists ny nx, y = Z.of_nat ny /\ x = Z.of_nat nx /\
+                  (x0 <= x < x1)%Z /\ (y0 <= y < y1)%Z /\ (ny < NY)%nat /\ (nx < NX)%nat /\
+                  pixm mask ny nx = false /\ pixd data ny nx = Some v.
+Proof. exact quadratic_fit_points. Qed.
+Print Assumptions quadratic_fits_unmasked_finite_box_pixels.
+
 (* a least-squares solution of exactly quadratic data is the quadric itself, as soon as
    the fitted pixels contain six points of a 3x3 block (pure algebra, no assumption) *)
 Theorem least_squares_recovers_exact_quadric : forall sol k c pts,
@@ -170,6 +185,44 @@ Theorem quadratic_exact_peak_partial :
               x == vertex_x c /\ y == vertex_y c /\ critical c x y.
 Proof. exact quadratic_exact. Qed.
 Print Assumptions quadratic_exact_peak_partial.
+
+(* PARTIAL (formula level only): the vertex formula commutes with the coefficient changes
+   that a flip, a transposition and a positive rescaling of the fitted SURFACE induce
+   ([coef_flipx a c] are the coefficients of (x, y) |-> P (a - x, y), [coef_swap c] of
+   (x, y) |-> P (y, x), [coef_scale k c] of k * P).  Missing for the full clause: that
+   numpy.linalg.lstsq on the flipped / transposed / rescaled pixels returns those
+   coefficients (tested: support quadratic_flip-x / transpose / scale). *)
+Theorem mirrored_surface_coefficients : forall a c00 c x y,
+  let '(c10, c01, c11, c20, c02) := c in
+  quad_poly (c00 + c10 * a + c20 * a * a) (coef_flipx a c) x y == quad_poly c00 c (a - x) y.
+Proof. exact coef_flipx_poly. Qed.
+Print Assumptions mirrored_surface_coefficients.
+Theorem transposed_surface_coefficients : forall c00 c x y,
+  quad_poly c00 (coef_swap c) x y == quad_poly c00 c y x.
+Proof. exact coef_swap_poly. Qed.
+Print Assumptions transposed_surface_coefficients.
+Theorem rescaled_surface_coefficients : forall k c00 c x y,
+  quad_poly (k * c00) (coef_scale k c) x y == k * quad_poly c00 c x y.
+Proof. exact coef_scale_poly. Qed.
+Print Assumptions rescaled_surface_coefficients.
+Theorem vertex_formula_flip_x_partial : forall a c,
+  negdef c ->
+  negdef (coef_flipx a c) /\
+  vertex_x (coef_flipx a c) == a - vertex_x c /\ vertex_y (coef_flipx a c) == vertex_y c.
+Proof. exact vertex_flipx. Qed.
+Print Assumptions vertex_formula_flip_x_partial.
+Theorem vertex_formula_transposition_partial : forall c,
+  negdef c ->
+  negdef (coef_swap c) /\
+  vertex_x (coef_swap c) == vertex_y c /\ vertex_y (coef_swap c) == vertex_x c.
+Proof. exact vertex_swap. Qed.
+Print Assumptions vertex_formula_transposition_partial.
+Theorem vertex_formula_rescaling_partial : forall k c,
+  0 < k -> negdef c ->
+  negdef (coef_scale k c) /\
+  vertex_x (coef_scale k c) == vertex_x c /\ vertex_y (coef_scale k c) == vertex_y c.
+Proof. exact vertex_scale. Qed.
+Print Assumptions vertex_formula_rescaling_partial.
 
 (* masked pixels' values are ignored by centroid_quadratic, whatever lstsq does *)
 Theorem quadratic_ignores_masked_values :
